@@ -107,7 +107,7 @@ def execute(scenario, seed, overrides=None):
              "peer_answers": 0, "returned_at_timeout": 0, "queries": 0}
     try:
         drv = Driver(w, scenario)
-        st = {"hm": None, "log": []}
+        st = {"hm": None, "log": [], "flush_marks": set()}
 
         def on_rx(t, rsock, data, addr, tx_idx, copy):
             if rsock.owner.name != "V":
@@ -122,6 +122,8 @@ def execute(scenario, seed, overrides=None):
                 e = hm.cache.e.get(ident)
                 if e is not None:
                     st["log"].append((t, ident, e.created, e.ttl))
+            for ident in eff.flushed:
+                st["flush_marks"].add((t, ident))
             for ident in eff.removed:
                 st["log"].append((t, ident, None, None))
 
@@ -255,6 +257,35 @@ def _oracle(w, drv, sc, st, stats, out):
                         f"timeout {lk['timeout']} ms")
             else:
                 stats["returned_at_timeout"] += 1
+            # "succeeds iff it knows an address of the service's host": what was delivered to the instance and is still
+            # unexpired in its cache is known to it. Judged 50 ms before the return so that ties play no part.
+            tj = t_ret - 0.05
+            if tj > t_start:
+                # (a cache-flush mark gives an expired-but-unpurged sibling one more second without telling anybody:
+                # such a revived record is not something the lookup was ever handed)
+                cur = {}
+                for (te, ident, created, ttl) in log:
+                    if te > tj:
+                        break
+                    if created is None:
+                        cur.pop(ident, None)
+                    elif (te, ident) in st["flush_marks"] and ident in cur and \
+                            cur[ident][0] + 1000.0 * cur[ident][1] <= te * 1000.0:
+                        continue
+                    else:
+                        cur[ident] = (created, ttl)
+                live = {i: ct for i, ct in cur.items() if ct[0] + 1000.0 * ct[1] > t_ret * 1000.0}
+                srvs = sorted(((ct[0], ct[1], i) for i, ct in live.items() if i[0] == inst and i[1] == wire.T_SRV))
+                if srvs:
+                    target = srvs[-1][2][3][3].lower()
+                    have = [i for i in live if i[0] == target and i[1] in (wire.T_A, wire.T_AAAA)]
+                    # (an SRV naming another host that was valid at some instant of the lookup may have been the one the
+                    # lookup followed: only an unambiguous host counts)
+                    seen = _unexpired_in_window(log, t_start, t_ret, lambda i: i[0] == inst and i[1] == wire.T_SRV)
+                    if have and len({i[3][3].lower() for i in seen}) == 1:
+                        out.add("C18.failed-although-address-cached", f"lookup returned False at {t_ret - t0:.6f} (timeout "
+                                f"{lk['timeout']} ms) although the cache had held an unexpired SRV -> {target} and "
+                                f"{len(have)} address record(s) of that host for at least 50 ms")
         # provenance
         srv_ok = _unexpired_in_window(log, t_start, t_ret, lambda i: i[0] == inst and i[1] == wire.T_SRV)
         txt_ok = _unexpired_in_window(log, t_start, t_ret, lambda i: i[0] == inst and i[1] == wire.T_TXT)
